@@ -208,13 +208,21 @@ func famLegit(r *Rng, o *Out, tier string) {
 		trusted := map[string][]macaroon.EncryptionKey{}
 		for _, u := range tps {
 			proof := r.Chance(3, 4)
+			// the location a discharge carries is the third party's own choice (an argument of DischargeTicket, not
+			// signed into the ticket): a discharge minted under another spelling, another name or none at all is
+			// still the discharge of that ticket; trusted keys are looked up under the discharge's own location
+			dloc := u.p.loc
+			if r.Chance(1, 4) {
+				dloc = pick(r, []string{u.p.loc + "/", strings.ToUpper(u.p.loc), "", "https://elsewhere.example", u.p.loc + "?x=1"})
+				o.count("discharge.otherLocation")
+			}
 			var dm *macaroon.Macaroon
 			var extra []macaroon.Caveat
 			for j, mm := 0, r.Intn(3); j < mm; j++ {
 				extra = append(extra, r.plainCav(1))
 			}
 			if proof {
-				tcs, d, err := macaroon.DischargeTicket(u.p.ka, u.p.loc, u.ticket)
+				tcs, d, err := macaroon.DischargeTicket(u.p.ka, dloc, u.ticket)
 				if err != nil {
 					panic(err)
 				}
@@ -283,19 +291,19 @@ func famLegit(r *Rng, o *Out, tier string) {
 				if cloneEnc != nil {
 					enc = cloneEnc
 				}
-				o.emit(fmt.Sprintf("(proof.run %s %s %s %s %s (%s))", hx(u.p.ka), hs(u.p.loc), hx(u.ticket), hx(dm.Nonce.Rnd), hx(u.rn), strings.Join(ops, " ")), strings.Join(outs, " "))
+				o.emit(fmt.Sprintf("(proof.run %s %s %s %s %s (%s))", hx(u.p.ka), hs(dloc), hx(u.ticket), hx(dm.Nonce.Rnd), hx(u.rn), strings.Join(ops, " ")), strings.Join(outs, " "))
 				ds = append(ds, enc)
 				if r.Bool() {
-					trusted[u.p.loc] = append(trusted[u.p.loc], u.p.ka)
+					trusted[dloc] = append(trusted[dloc], u.p.ka)
 				}
 			} else {
 				// old style: a non-proof discharge is just a macaroon keyed by rn whose key-id is the ticket
-				d, err := macaroon.New(u.ticket, u.p.loc, u.rn)
+				d, err := macaroon.New(u.ticket, dloc, u.rn)
 				if err != nil {
 					panic(err)
 				}
 				o.count("discharge.nonproof")
-				o.emit(fmt.Sprintf("(tok.new %s %s %s %s)", hx(u.rn), hx(u.ticket), hs(u.p.loc), hx(d.Nonce.Rnd)), hx(mustEnc(d)))
+				o.emit(fmt.Sprintf("(tok.new %s %s %s %s)", hx(u.rn), hx(u.ticket), hs(dloc), hx(d.Nonce.Rnd)), hx(mustEnc(d)))
 				its := make([]addItem, len(extra))
 				for j, c := range extra {
 					its[j] = addItem{cav: c}
